@@ -270,6 +270,10 @@ def make_worker(tier):
                 elif err.startswith("exception"):
                     S.add("outcomes", "exception")
                     S.violation("C20.error", "C20.error/exception-escapes/%s/%s" % (kind, err.split(":")[0].split()[-1]), inp, expected="Err naming " + fname, actual=err)
+                elif fname not in err:
+                    # the error VALUE names the module: in its messages, not only in the location tag a renderer may add
+                    S.add("outcomes", "err-unnamed-in-messages")
+                    S.violation("C20.error", "C20.error/module-not-named-in-the-error-messages/%s" % kind, inp, expected="Err whose messages name " + fname, actual={"messages": err, "rendered": rendered})
                 elif fname not in err and fname not in (rendered or ""):
                     S.add("outcomes", "err-unnamed")
                     S.violation("C20.error", "C20.error/module-not-named/%s" % kind, inp, expected="Err naming " + fname, actual={"messages": err, "rendered": rendered})
